@@ -38,7 +38,7 @@ def main():
             print("/repo not clean"); return 2
         sh("git -C /repo apply %s/patch.diff" % D)
         for cid in checks:
-            r = sh("./check %s --tier %s" % (cid, os.environ.get("TIER", "quick")), cwd="/verif", timeout=3000)
+            r = sh("VERIF_EVIDENCE_DIR=/tmp/seed_evidence ./check %s --tier %s" % (cid, os.environ.get("TIER", "quick")), cwd="/verif", timeout=3000)
             tail = [l for l in r.stdout.splitlines() if re.match(r"(VIOLATION|OK|KNOWN)", l)]
             print("  check %s:" % cid, tail)
             results[cid] = {"exit": r.returncode, "lines": tail}
